@@ -1049,7 +1049,10 @@ class UKF:
         # 9.1. Update state estimation
         correction_vector = kalman_gain @ innovation                                # Correction as a rotation vector
         theta = np.linalg.norm(correction_vector)  # Angle of rotation
-        correction_quaternion = Quaternion([np.cos(theta/2.0), *(np.sin(theta/2.0) * correction_vector/theta)])  # Convert to quaternion
+        if theta > 0:
+            correction_quaternion = Quaternion([np.cos(theta/2.0), *(np.sin(theta/2.0) * correction_vector/theta)])  # Convert to quaternion
+        else:
+            correction_quaternion = Quaternion([1.0, 0.0, 0.0, 0.0])   # Nothing to correct: the measurement is exactly the predicted one
         updated_quaternion = predicted_state_mean.product(correction_quaternion)    # Apply correction to predicted state
 
         # 9.2. Update state covariance
